@@ -1,16 +1,16 @@
 SPECIFICATION Spec
 CONSTANTS
-  Reqs = {"r1", "r2"}
-  QCap = 1
+  Reqs = {"r1", "r2", "a3"}
+  QCap = 2
   FixHandoff = TRUE
   FixSend = TRUE
   FixReader = TRUE
-  Banned = {"r2"}
-  Asking = {}
+  Banned = {}
+  Asking = {"a3"}
   AskAnswersInHand = TRUE
-  BufCap = 3
+  BufCap = 1
   FixFlushOnStop = TRUE
-  MaxResets = 1
+  MaxResets = 0
   WithStop = TRUE
   Det = FALSE
 INVARIANTS TypeOK AtMostOnce NoLostRequest NoStuckSender PairingFIFO
